@@ -96,7 +96,8 @@ inductive Err where
   deriving DecidableEq, Repr
 
 def locateClosest (l : List Rat) (t : Rat) : Except Err Nat :=
-  if !isSorted l then .error .diag
+  if l.length = 0 then .error .diag            -- fix 48e4c84: an empty list has no closest location
+  else if !isSorted l then .error .diag
   else
     let idx := upperBound l t
     if idx = l.length then .ok (l.length - 1)
@@ -149,10 +150,10 @@ def listsEqualDD (v1 v2 : List (List Dbl)) : Bool := listsEqualBy listsEqualD v1
 def combine (v1 v2 : List α) : List α := v1 ++ v2
 
 /-- `Transpose_Lists`: `lists[0].size()` columns; ragged input → diagnostic.
-    An empty outer list reads `lists[0]` out of bounds in the C++ (meaningless request). -/
+    The transpose of zero lists is the empty list (fix 9697404; before, `lists[0]` was read out of bounds). -/
 def transposeLists [Inhabited α] (ls : List (List α)) : Except Err (List (List α)) :=
   match ls with
-  | [] => .error .diag
+  | [] => .ok []
   | l0 :: _ =>
     let m := l0.length
     if ls.all (fun l => l.length = m) then
